@@ -115,6 +115,7 @@ def gen(rng, tier, i):
         chaos["capacity"] = 1 << 20
     sc.net["chaos"] = chaos
     sc.net["spawn_yield"] = rng.choice([0, 300, 600])
+    sc.net["lock_yield"] = rng.choice([0, 0, 300])   # seeded scheduling points at the asynchronous locks
     # listeners: http and socks, on v4 and dual-stack binds
     lh = sc.add_http_listener("l-http")
     ls = sc.add_socks_listener("l-socks")
